@@ -88,7 +88,8 @@ def run(ctx: Context) -> None:
     ok = is_var(kw.get('index'), 'index') and is_var(kw.get('linear_index'), 'li') and is_var(kw.get('polygon'), 'polygon') and is_var(kw.get('intersection'), 'piece')
     ctx.check('R18.1', ok, "the segment carries that same linear index, native index, polygon and piece", seg, ts[0],
               construct=f"TransectSegment({ {k: norm_text(v) for k, v in kw.items() if k in ('index', 'linear_index', 'polygon', 'intersection')} })")
-    app = [c for c in method_calls(seg, 'append') if c.args and c.args[0] is ts[0]]
+    sflow_ = ctx.flow(seg)
+    app = [c for c in method_calls(seg, 'append') if c.args and (c.args[0] is ts[0] or sflow_.resolve(c.args[0]) is ts[0])]
     inner_depth = len(enclosing_ifs(seg, inner)) if inner is not None else 0
     ok = len(app) == 1 and len(enclosing_ifs(seg, app[0])) == inner_depth and inner is not None and any(x is app[0] for x in ast.walk(inner))
     ctx.check('R18.1', ok, "every piece is appended unconditionally", seg, app[0] if app else seg.node, construct='segments.append(TransectSegment(...))')
